@@ -279,6 +279,8 @@ ChkApiRet(m, e, tr) ==
              /\ ~(\A k \in 1..(Len(e.solT) - 1) : (e.solT[k] < e.solT[k + 1]) = (e.solT[1] < e.solT[2]) /\ e.solT[k] # e.solT[k + 1])
           THEN {"C06.PiecesOrderedAlongTheRun", "C09.PiecesOrderedAlongTheRun"} ELSE {})
     \cup (IF e.solPub = tr.dense THEN {} ELSE {"C06.SolutionObjectIffDense"})
+    \* the per-function view `events_dict` is the event list grouped by event function, in list order (sensor: exact comparison)
+    \cup (IF e.evDictOk THEN {} ELSE {"C07.EventsDictAgreesWithEventList"})
     \cup (IF e.op = "integrate" /\ e.err = "none" /\ ~m.opNoop /\ ~e.success THEN {"C03.SuccessReported", "C09.SuccessReported"} ELSE {})
     \cup (IF e.op = "integrate" /\ e.err # "none" /\ e.success THEN {"C12.StatusReportsFailure"} ELSE {})
     \cup (IF e.op = "integrate" /\ e.err # "none" /\ e.site # "none"
